@@ -97,7 +97,7 @@ def join(scen, recs, root_id, cfg, taskset=None, env=None):
         if r.get("outcome") == "driver-error":
             raise Machinery("hash driver error: %s" % r.get("err"))
         j = {"id": s["id"], "root": root_id, "files": s["files"], "list": s["list"], "vanish": s.get("vanish", []), "churn": s.get("churn", []),
-             "gated": bool(s.get("gated")), "order": s.get("order", []),
+             "gated": bool(s.get("gated")), "order": s.get("order", []), "spell": s.get("spell", ""),
              "outs": [{"outcome": o["outcome"], "digest": o.get("digest", ""), "n": o.get("n", 1)} for o in r.get("outs", [])],
              "leak": r.get("leak", 0), "outcome": r.get("outcome", "ok"), "feasible": r.get("feasible", True),
              "cfg": cfg, "workers": r.get("workers", -1), "taskset": taskset, "env": env}
@@ -221,10 +221,16 @@ def run_c04(ctx):
     nshard = min(vlib.NCPU, 8)
     shards = [[] for _ in range(nshard)]
     sid = 0
+    rsp = random.Random(ctx.seed + 5)
     for k, fs in enumerate(fss):
         for l in lists:
             sid += 1
             shards[k % nshard].append({"id": sid, "files": fs, "list": l, "reps": reps})
+            # the same list with its paths spelled differently (relative, dotted, mixed): the same (absolute path, content) pairs
+            if l and rsp.random() < (0.08 if tier == "quick" else 0.04):
+                for sp in ("rel", "dot", "mixed"):
+                    sid += 1
+                    shards[k % nshard].append({"id": sid, "files": fs, "list": l, "reps": reps, "spell": sp})
     # gated replays of TLC's orders, grouped by cpu count (taskset)
     gated = {}
     for o in orders:
@@ -361,7 +367,7 @@ def confirm_and_report(ctx, driver, rel, rs):
     scen = []
     for k, r in enumerate(rs):
         scen.append({"id": k + 1, "files": r["files"], "list": r["list"], "vanish": r.get("vanish", []), "churn": r.get("churn", []), "gated": r.get("gated", False),
-                     "order": r.get("order", []), "reps": 5, "trace": False})
+                     "order": r.get("order", []), "reps": 5, "trace": False, "spell": r.get("spell", "")})
     ts, env = rs[0].get("taskset"), rs[0].get("env")          # same CPU / GOMAXPROCS setting as the original observation
     again = join(scen, drive(ctx, driver, root, scen, taskset=ts, env=env), 0, "confirm", ts, env)
     v = judge(ctx, again)
@@ -381,7 +387,8 @@ def confirm_and_report(ctx, driver, rel, rs):
     r0 = again[still[0] - 1] if rel in ("Clean_C18", "Determ_C04") else again[0]
     sig = "%s:%s:%s" % (rel, r0["outcome"] if r0["outcome"] != "ok" else "/".join(sorted({o["outcome"] for o in r0["outs"]})),
                         ",".join(bad_kinds(r0)) or "clean")
-    what = "%s fails: list=%s outcome=%s outs=%s %s" % (rel, r0["list"], r0["outcome"], r0["outs"][:2], r0.get("detail", "")[:200])
+    what = "%s fails: list=%s%s outcome=%s outs=%s %s" % (rel, r0["list"], "".join(" | %s spelled %s" % (r["list"], r.get("spell") or "abs") for r in again[1:2]),
+                                                        r0["outcome"], r0["outs"][:2], r0.get("detail", "")[:200])
     vlib.report(ctx, sig, what, {"property": ctx.pid, "family": "hash", "relation": rel, "taskset": ts, "env": env,
                                  "scenarios": scen, "observed": again})
 
